@@ -20,9 +20,13 @@ ACTIONS = RecDict[{'FROM': RecDict[{'text': Str}], 'WITH': Str, 'ORDER BY': RecD
                    'SELECT': RecDict[{'text': Str, 'distinct_count': Bool, 'distinct': Bool, 'top': Int}], 'EXCEPT': RecDict[{'text': Str}], 'LIMIT': RecDict[{'text': Str}]}]
 
 
-@trusted('rbql_engine.cleanup_query', trusted='A-PARSE: text -> text (comment lines, line breaks, trailing semicolon); bounded stand-in bounded/jobs_c08.py')
+@contract('rbql_engine.cleanup_query', name='C08.cleanup.query', props=['C08'])
 def _(query_text: Str) -> Str:
-    pass
+    # the query text is read line by line: comment lines (first non-blank character #) and blank lines vanish, every other line loses its surrounding
+    # blanks, the remaining lines are joined by single spaces and trailing semicolons are dropped
+    ensures(exists(Seq[Str], lambda L: len(L) == len(str_split(query_text, '\n'))
+                   and forall(Int, lambda i: implies(0 <= i and i < len(L), L[i] == strip_line(str_split(query_text, '\n')[i])))
+                   and result == ch_rstrip(str_join(' ', nonempty_strs(L)), ';')), 'lines_stripped_comments_dropped_joined_by_spaces_semicolons_dropped')
 
 
 @trusted('rbql_engine.remove_redundant_input_table_name', trusted='A-PARSE: text -> text (FROM a / UPDATE a SET); bounded stand-in bounded/jobs_c08.py')
@@ -72,9 +76,40 @@ def _(src: Str) -> Tuple[Str, List[Tuple[Str, Str]]]:
 
 
 
-@trusted('rbql_engine.generate_init_statements', trusted='A-PARSE: variable initialisation text')
+@pred
+def common_init(q, p):
+    # generate_common_init_code: the record object, and NR under its attribute / prefixed spellings when the text mentions them
+    return (([p + ' = RBQLRecord()'] + ([p + '.NR = ' + ('NR' if p == 'a' else 'bNR')] if q.find(p + '.NR') != -1 else []))
+            + (['aNR = NR'] if (p == 'a' and q.find('aNR') != -1) else []))
+
+
+@contract('rbql_engine.generate_common_init_code', name='C09.init.common', props=['C09'])
+def _(query_text: Str, variable_prefix: Str) -> List[Str]:
+    requires(variable_prefix == 'a' or variable_prefix == 'b', 'prefix_is_a_or_b')
+    local_types(result=List[Str])
+    ensures(is_fresh(result) and contents(result) == common_init(query_text, variable_prefix), 'record_object_and_NR_spellings')
+    raises('AssertionError', False, 'prefix_is_a_or_b')
+
+
+@contract('rbql_engine.generate_init_statements', name='C09.init.statements', props=['C09', 'C04'])
 def _(query_text: Str, variables_map: VMap, join_variables_map: Opt[VMap]) -> Str:
-    pass
+    # C09: every variable of the query that is to be initialised is bound, by name, to the field of record_a (record_b for the join table, None
+    # when there is no partner) at the index the variable map gives it -- and nothing else is bound
+    local_types(code_lines=List[Str])
+    loop_types(0, var_name=Str, var_info=NT['rbql_engine.VariableInfo'])
+    loop_types(1, var_name=Str, var_info=NT['rbql_engine.VariableInfo'])
+    invariant(0, 0 <= __i and __i <= len(keys(variables_map)) and is_fresh(code_lines), 'idx')
+    invariant(0, contents(code_lines) == common_init(query_text, 'a') + init_lines(dict_map(variables_map), keys(variables_map), __i, ' = safe_get(record_a, ', ')'), 'a_lines_so_far')
+    invariant(1, 0 <= __i and __i <= len(keys(opt_val(join_variables_map))) and is_fresh(code_lines) and not is_none(join_variables_map), 'idx')
+    invariant(1, contents(code_lines) == common_init(query_text, 'a') + init_lines(dict_map(variables_map), keys(variables_map), len(keys(variables_map)), ' = safe_get(record_a, ', ')')
+              + common_init(query_text, 'b') + init_lines(dict_map(opt_val(join_variables_map)), keys(opt_val(join_variables_map)), __i, ' = safe_get(record_b, ', ') if record_b is not None else None'), 'b_lines_so_far')
+    ensures(implies(is_none(join_variables_map) or len(keys(opt_val(join_variables_map))) == 0,
+                    result == str_join('\n', common_init(query_text, 'a') + init_lines(dict_map(variables_map), keys(variables_map), len(keys(variables_map)), ' = safe_get(record_a, ', ')'))), 'input_variables_bound_to_their_columns')
+    ensures(implies(not is_none(join_variables_map) and len(keys(opt_val(join_variables_map))) > 0,
+                    result == str_join('\n', common_init(query_text, 'a') + init_lines(dict_map(variables_map), keys(variables_map), len(keys(variables_map)), ' = safe_get(record_a, ', ')')
+                                       + common_init(query_text, 'b') + init_lines(dict_map(opt_val(join_variables_map)), keys(opt_val(join_variables_map)), len(keys(opt_val(join_variables_map))),
+                                                                                  ' = safe_get(record_b, ', ') if record_b is not None else None'))), 'join_variables_bound_to_their_columns_or_None')
+    raises('AssertionError', False, 'prefix_is_a_or_b')
 
 
 @trusted('rbql_engine.translate_update_expression', trusted='A-PARSE: assignment list -> safe_set calls; bounded stand-in bounded/jobs_rel.py')
